@@ -1017,9 +1017,16 @@ func isUnknownSpec(a predOutcome) predOutcome {
 // ---------------------------------------------------------------------------
 // keyvalue.go
 
+//@ lemma keyvalue-ids-distinct
+//@ props C16
+//@ forall bo kvBaseObject, a map[string]any, b map[string]any
+//@ requires bo.addr <= 9223372036854775807 && bo.gen == 0
+//@ ensures distinct-objects-distinct-offsets: bo.OffsetOf(a) == bo.OffsetOf(b) ==> addrOf(a) == addrOf(b)
+
 //@ func (kvBaseObject).OffsetOf
 //@ props C16 C05
 //@ ensures [C16] generated-object-itself: bo.gen != 0 && addrOf(obj) == bo.gen ==> r0 == 0
+//@ ensures [C16] distance-from-the-base: !(bo.gen != 0 && addrOf(obj) == bo.gen) ==> uint(r0) == ite(addrOf(obj) > bo.addr, addrOf(obj) - bo.addr, bo.addr - addrOf(obj))
 //@ requires bo.addr <= 9223372036854775807
 //@ ensures [C16] distance: r0 >= 0
 
